@@ -256,7 +256,13 @@ impl Accept for UnixListener {
 
     fn poll_accept(self: Pin<&mut Self>, cx: &mut Context<'_>) -> Poll<io::Result<Self::Conn>> {
         UnixListener::poll_accept(self.get_mut(), cx).map(|res| {
-            res.and_then(|(stream, remote)| Ok(UnixStream::new(stream, Some(remote.try_into()?))))
+            // The peer chooses the path its own socket is bound to. A path which cannot be
+            // represented (it is not UTF-8) must not fail the accept - that would end the
+            // server: such a peer is treated like one without an address.
+            res.map(|(stream, remote)| {
+                let remote = remote.try_into().unwrap_or_else(|_| UnixAddr::unnamed());
+                UnixStream::new(stream, Some(remote))
+            })
         })
     }
 }
